@@ -11,7 +11,7 @@ use crate::subjects::alpha::{self, Verdict};
 use crate::subjects::exec::run_lli;
 use serde_json::{Value, json};
 
-const PRELUDE: &str = "struct S\n{\n\ta: i32,\n\tb: i32,\n}\nword64 W\n{\n\ta: i32,\n\tb: i32,\n}\nconst KONST: i32 = 7;\nconst KARR: [3]i32 = [7, 8, 9];\nstruct T\n{\n\ta: i32,\n\tarr: [3]i32,\n\tinner: S,\n}\nfn take_t(p: T)\n{\n}\n";
+const PRELUDE: &str = "fn pick(k: usize) -> usize\n{\n\treturn: k\n}\nfn ignore_n(k: usize)\n{\n}\nstruct S\n{\n\ta: i32,\n\tb: i32,\n}\nword64 W\n{\n\ta: i32,\n\tb: i32,\n}\nconst KONST: i32 = 7;\nconst KARR: [3]i32 = [7, 8, 9];\nstruct T\n{\n\ta: i32,\n\tarr: [3]i32,\n\tinner: S,\n}\nfn take_t(p: T)\n{\n}\nfn take_two(k: usize, p: T)\n{\n}\n";
 const STATE_DECL: &str = "\tvar x: i32 = 1;\n\tvar arr: [3]i32 = [10, 20, 30];\n\tvar s: S = S { a: 100, b: 200 };\n\tvar w: W = W { a: 1000, b: 2000 };\n\tvar q: &i32 = &x;\n\tvar t: T = T { a: 5, arr: [6, 7, 8], inner: S { a: 9, b: 11 } };\n";
 const PRINT_STATE: &str = "\tprint!(x, \" \", arr[0], \" \", arr[1], \" \", arr[2], \" \", s.a, \" \", s.b, \" \", w.a, \" \", w.b, \" \", t.a, \" \", t.arr[0], \" \", t.arr[1], \" \", t.arr[2], \" \", t.inner.a, \" \", t.inner.b, \"\\n\");\n";
 const INITIAL: [i64; 14] = [1, 10, 20, 30, 100, 200, 1000, 2000, 5, 6, 7, 8, 9, 11];
@@ -200,7 +200,16 @@ pub fn cells() -> Vec<Cell>
 		}
 	}
 	// whole-aggregate copies and constant assignments
-	let agg: [(&str, &str, u16); 14] = [
+	let agg: [(&str, &str, u16); 22] = [
+		// the same copies with a call of an unrelated function earlier in the statement or just before it
+		("copy array into a row chosen by a call", "\tvar mm: [2][3]i32 = [[1, 2, 3], [4, 5, 6]];\n\tmm[pick(1)] = arr;\n", 531),
+		("copy struct into an element chosen by a call", "\tvar ss: [2]S = [S { a: 1, b: 2 }, S { a: 3, b: 4 }];\n\tss[pick(0)] = s;\n", 533),
+		("copy array in declaration after a call statement", "\tignore_n(pick(1));\n\tvar b: [3]i32 = arr;\n", 531),
+		("copy struct by assignment after a call with a variable argument", "\tvar b: S = S { a: 0, b: 0 };\n\tvar n: usize = pick(x as usize);\n\tb = s;\n", 533),
+		("copy array into a member of a structure literal after a call in an earlier member", "\tvar b: T = T { a: x + (pick(1) as i32), arr: arr, inner: S { a: 1, b: 2 } };\n", 531),
+		("copy struct into a member of a structure literal passed behind an argument that is a call", "\ttake_two(pick(1), T { a: 1, arr: [1, 2, 3], inner: s });\n", 533),
+		("assign to element of constant array chosen by a call", "\tKARR[pick(1)] = 5;\n", 530),
+		("legal: element chosen by a call", "\tarr[pick(1)] = 5;\n\ts.a = pick(2) as i32;\n", 0),
 		("copy struct into a member of a structure literal passed as argument", "\ttake_t(T { a: 1, arr: [1, 2, 3], inner: s });\n", 533),
 		("copy array into a member of a structure literal passed as argument", "\ttake_t(T { a: 1, arr: arr, inner: S { a: 1, b: 2 } });\n", 531),
 		("copy struct into a member of a structure literal", "\tvar b: T = T { a: 1, arr: [1, 2, 3], inner: s };\n", 533),
